@@ -66,7 +66,7 @@ func (g *litGen) value(t *TypeRef, depth int, fl uint8) {
 	if g.faultFn != nil && g.faultFn(t, def, fl) {
 		return
 	}
-	if g.varFn != nil && fl&flConst == 0 && (r.Chance(1, 5) || g.varBoost) && g.varFn(t, fl) {
+	if g.varFn != nil && fl&flConst == 0 && (r.Chance(1, 5) || g.varBoost && r.Bool()) && g.varFn(t, fl) {
 		if depth > 0 {
 			g.hitNestedVar = true
 		}
@@ -95,7 +95,6 @@ func (g *litGen) value(t *TypeRef, depth int, fl uint8) {
 			n = r.Intn(2)
 		}
 		g.b = append(g.b, '[')
-		g.nest++
 		for i := 0; i < n; i++ {
 			if i > 0 {
 				if r.Bool() {
@@ -107,7 +106,6 @@ func (g *litGen) value(t *TypeRef, depth int, fl uint8) {
 			sub := flNoCoerce | (fl & flConst)
 			g.value(t.Elem, depth+1, sub)
 		}
-		g.nest--
 		g.b = append(g.b, ']')
 		return
 	}
@@ -134,7 +132,7 @@ func (g *litGen) named(t *TypeRef, def *TypeDef, depth int, fl uint8) {
 			g.intLit()
 		case "Float":
 			switch {
-			case g.bigNum && r.Chance(1, 12):
+			case g.bigNum && r.Chance(1, 40):
 				g.hitBigNum = true
 				g.b = append(g.b, rng.Pick(g.r, bigInts[:3])...)
 			case r.Chance(1, 3):
@@ -152,7 +150,7 @@ func (g *litGen) named(t *TypeRef, def *TypeDef, depth int, fl uint8) {
 			}
 		case "ID":
 			switch {
-			case g.bigNum && r.Chance(1, 12):
+			case g.bigNum && r.Chance(1, 40):
 				g.hitBigNum = true
 				g.b = append(g.b, rng.Pick(g.r, bigInts[:3])...)
 			case r.Bool():
